@@ -28,7 +28,7 @@ var R = hx.NewRecorder("C16", "cases = histories (rapid state machine) of up to 
 	"oracle = model of what must / must not / may resume; DidResume equal on both ends; a resumed GMSSL connection must decode under the ORIGINAL master secret with the new randoms (independent passive decoder), keep version, suite and peer certificates; a non-resumed one must be a full handshake; data round trip after every connection; non-trivial = a connection that offered a ticket; distinct by hash of the history")
 
 func TestMain(m *testing.M) {
-	R.Require("tls_ticket:tampered", "tls_ticket:genuine", "version_changed", "ticket_opened", "ekm_reference", "original_master_proved", "resumed_gm", "resumed_tls", "rotated_old_key_accepted", "rotated_dropped", "tampered", "evicted", "policy_now_forbids_certs", "policy_now_requires_certs", "policy_now_verifies_untrusted_cert:gm=true", "policy_now_verifies_untrusted_cert:gm=false", "resumed_identity_verified:gm=true", "resumed_identity_verified:gm=false", "tickets_disabled", "server_switched", "suite_removed", "must_resume", "must_not_resume")
+	R.Require("resumed_by_a_clone", "tls_ticket:tampered", "tls_ticket:genuine", "version_changed", "ticket_opened", "ekm_reference", "original_master_proved", "resumed_gm", "resumed_tls", "rotated_old_key_accepted", "rotated_dropped", "tampered", "evicted", "policy_now_forbids_certs", "policy_now_requires_certs", "policy_now_verifies_untrusted_cert:gm=true", "policy_now_verifies_untrusted_cert:gm=false", "resumed_identity_verified:gm=true", "resumed_identity_verified:gm=false", "tickets_disabled", "server_switched", "suite_removed", "must_resume", "must_not_resume")
 	hx.Main(m, R)
 }
 
@@ -643,6 +643,111 @@ func hasKey(keys [][32]byte, k [32]byte) bool {
 }
 
 // ---- tickets offered by the independent reference client: genuine, altered, truncated, extended
+
+// Long-lived server Config OBJECTS, some of them Clone()s of others, each with its own ticket-key history: rotating the
+// keys of one configuration must not change what another one accepts (a clone owns its key list from the moment it is
+// made). Model: per object the key list it was given; a cached session resumes exactly when the object it is offered
+// to holds the key its ticket was sealed under.
+func TestC16_ClonedConfigs(t *testing.T) {
+	p := tlsx.GetPKI()
+	hn := 0
+	hx.Check(t, hx.N(120, 2500), func(t *rapid.T) {
+		hn++
+		gm := rapid.Bool().Draw(t, "gmssl")
+		mk := func(id string) *gmtls.Config {
+			if gm {
+				sc := tlsx.GMServer(p, "s"+id)
+				sc.CipherSuites = []uint16{tlsx.GMECCSM4CBCSM3, tlsx.GMECCSM4GCMSM3}
+				return sc
+			}
+			sc := tlsx.TLSServer(p, p.RSASrv, "s"+id)
+			sc.CipherSuites = []uint16{0xc02f, 0xc014}
+			return sc
+		}
+		cfgs := []*gmtls.Config{mk(fmt.Sprint("cl", hn))}
+		keys := [][][32]byte{{keyN(1)}}
+		cfgs[0].SetSessionTicketKeys(keys[0])
+		nextKey := 2
+		cache := gmtls.NewLRUClientSessionCache(8)
+		sess := map[string][32]byte{} // cache key (server name) -> ticket key of the cached session
+		var hist []string
+		conns, resumedUnderClone, refusedAfterForeignRotation := 0, false, false
+		lastRotated := -1
+		t.Repeat(map[string]func(*rapid.T){
+			"connect": func(t *rapid.T) {
+				if conns >= 8 {
+					t.Skip("enough")
+				}
+				conns++
+				i := rapid.IntRange(0, len(cfgs)-1).Draw(t, "cfg")
+				name := rapid.SampledFrom([]string{"a.test:443", "b.test:443"}).Draw(t, "name")
+				id := fmt.Sprintf("cl%dc%d", hn, conns)
+				var cc *gmtls.Config
+				if gm {
+					cc = tlsx.GMClient(p, "c"+id)
+				} else {
+					cc = tlsx.TLSClient(p, "c"+id)
+					cc.MinVersion, cc.MaxVersion = 0x0303, 0x0303
+				}
+				cc.ServerName, cc.InsecureSkipVerify, cc.ClientSessionCache = "", true, cache
+				k, cached := sess[name]
+				want := cached && hasKey(keys[i], k)
+				r := tlsx.Run(cc, cfgs[i], tlsx.Script{ClientSend: []byte("c" + id), ServerSend: []byte("s" + id), ServerAddr: name, ClientAddr: "client:" + id})
+				hist = append(hist, fmt.Sprintf("connect(cfg%d,%s)", i, name))
+				desc := fmt.Sprintf("history %v | gm=%v | model: cached=%v want resume=%v | %s", hist, gm, cached, want, r.Describe())
+				if r.Client.Panic != nil || r.Server.Panic != nil {
+					t.Fatalf("endpoint panicked\n%s", desc)
+				}
+				if r.Client.HSErr != nil || r.Server.HSErr != nil {
+					t.Fatalf("connection failed; the server must resume or silently fall back\n%s", desc)
+				}
+				if got := r.Client.State.DidResume; got != want || r.Server.State.DidResume != want {
+					t.Fatalf("resumed=%v/%v, but the configuration object holds (want=%v) the key of the cached session's ticket\n%s", got, r.Server.State.DidResume, want, desc)
+				}
+				if want && i > 0 {
+					resumedUnderClone = true
+				}
+				if cached && !want && lastRotated >= 0 {
+					refusedAfterForeignRotation = true
+				}
+				sess[name] = keys[i][0]
+			},
+			"rotate": func(t *rapid.T) {
+				i := rapid.IntRange(0, len(cfgs)-1).Draw(t, "cfg")
+				nk := [][32]byte{keyN(nextKey)}
+				nextKey++
+				if rapid.Bool().Draw(t, "keep") {
+					nk = append(nk, keys[i]...)
+					if len(nk) > 3 {
+						nk = nk[:3]
+					}
+				}
+				keys[i] = nk
+				cfgs[i].SetSessionTicketKeys(nk)
+				lastRotated = i
+				hist = append(hist, fmt.Sprintf("rotate(cfg%d,%d keys)", i, len(nk)))
+			},
+			"clone": func(t *rapid.T) {
+				if len(cfgs) >= 4 {
+					t.Skip("enough objects")
+				}
+				i := rapid.IntRange(0, len(cfgs)-1).Draw(t, "cfg")
+				cfgs = append(cfgs, cfgs[i].Clone())
+				keys = append(keys, append([][32]byte{}, keys[i]...))
+				hist = append(hist, fmt.Sprintf("clone(cfg%d)", i))
+			},
+		})
+		cl := []string{"cloned_configs"}
+		if resumedUnderClone {
+			cl = append(cl, "resumed_by_a_clone")
+		}
+		if refusedAfterForeignRotation {
+			cl = append(cl, "clone_refused_foreign_key")
+		}
+		R.Case(conns >= 2 && len(cfgs) >= 2, hx.HashKey("clone", fmt.Sprint(hist), gm), cl...)
+		R.Sample("cloned_configs", map[string]interface{}{"history": hist, "gm": gm})
+	})
+}
 
 // TLS mode: the keyed scripted TLS 1.2 client (rgmssl.ResumeTLS12) offers genuine, altered, truncated, extended, foreign
 // and rotated-away tickets to the TLS-only and the auto-switch server. Only the ticket the server issued, under a key
